@@ -58,7 +58,7 @@ def check(ctx):
     r = ctx.call_func(I, st, f, eq, pts)
     I2, s2 = ctx.interp(), State()
     ref = ctx.call_func(I2, s2, "ref.dch_ref.vertical_distance", eq, pts)
-    ctx.compare("NF-VERTICAL", "_directional_distance = (p.n + b) / n_y", N, r, ref, ctx.site(f), alternatives=_alts(ctx, ("vertical_distance_plane_value",), eq, pts))
+    ctx.compare("NF-VERTICAL", "_directional_distance = (p.n + b) / n_y", N, r, ref, ctx.site(f), alternatives=_alts(ctx, ("vertical_distance_plane_value", "vertical_distance_homogeneous"), eq, pts))
     ctx.shape_is("Shape", "_directional_distance is (points, facets)", r, ("V", "F"), ctx.site(f))
     # ---- hull distance ----------------------------------------------------------------------
     I, st = ctx.interp(), State()
@@ -68,7 +68,7 @@ def check(ctx):
     I2, s2 = ctx.interp(), State()
     ref = ctx.call_func(I2, s2, "ref.dch_ref.hull_distance", eq, pts, tol)
     site = ctx.site(P.method(cls, "_directional_convex_hull_distance"))
-    ctx.compare("R-SIGNED", "hull distance: min over facets on/above, max of the non-positive offsets below", N, r, ref, site, alternatives=_alts(ctx, ("hull_distance_plane_value", "hull_distance_pointwise"), eq, pts, tol))
+    ctx.compare("R-SIGNED", "hull distance: min over facets on/above, max of the non-positive offsets below", N, r, ref, site, alternatives=_alts(ctx, ("hull_distance_plane_value", "hull_distance_homogeneous", "hull_distance_pointwise"), eq, pts, tol))
     ctx.no_shape_conflicts("Shape", "_directional_convex_hull_distance", I, 0, site)
     ctx.shape_is("Shape", "one distance per point", r, ("V",), site)
     # ---- fit --------------------------------------------------------------------------------------------
@@ -131,7 +131,7 @@ def check(ctx):
         I2, s2 = ctx.interp(), State()
         ref = ctx.call_func(I2, s2, "ref.dch_ref.dch_score_samples", Xq, yq, I2.mk_list([vconst(i) for i in low]), eqs, tolv)
         site_s = ctx.site(P.method(cls, "score_samples"))
-        ctx.compare("R-LAYOUT", f"score_samples stacks (y, low-dim features) in the fitted order and returns the hull distance [{cfg}]", N, r, ref, site_s, cfg, alternatives=_alts(ctx, ("dch_score_samples_plane_value", "dch_score_samples_pointwise"), Xq, yq, I2.mk_list([vconst(i) for i in low]), eqs, tolv))
+        ctx.compare("R-LAYOUT", f"score_samples stacks (y, low-dim features) in the fitted order and returns the hull distance [{cfg}]", N, r, ref, site_s, cfg, alternatives=_alts(ctx, ("dch_score_samples_plane_value", "dch_score_samples_homogeneous", "dch_score_samples_pointwise"), Xq, yq, I2.mk_list([vconst(i) for i in low]), eqs, tolv))
         ctx.no_shape_conflicts("Shape", f"score_samples [{cfg}]", I, lo, site_s, cfg)
         ctx.shape_is("Shape", f"score_samples: one value per sample [{cfg}]", r, ("V",), site_s, cfg)
         # ---- score_feature_matrix -------------------------------------------------------------------------
